@@ -1,20 +1,74 @@
 import NanoVerif.Proofs.Codec
 import NanoVerif.Proofs.Wire
 import NanoVerif.Proofs.TensorHash
+import NanoVerif.Proofs.CodecHashFold
+import NanoVerif.Proofs.CodecStream
 /-!
   C15 — serialization round-trips models; truncated / corrupted streams are rejected.
 
   Model: `Model/Codec.lean` (combinators = the overloads of `include/nano/core/stream.h`) and `Model/Wire.lean`
   (the wire formats of tensors, parameters, configurables, features, learners, linear models, the weak learners and the
-  gradient boosting model); `hashCombine` is regenerated from `include/nano/core/hash.h` on every run.
-  `c.dec bs = none` is the model's "exception or failed stream state".
+  gradient boosting model); `Model/WireStream.lean` (the readers of stream.h / tensor/stream.h / configurable.cpp as
+  coded: sticky failure state, loops, early returns); `hashCombine` is regenerated from `include/nano/core/hash.h` on
+  every run. `c.dec bs = none` is the model's "exception or failed stream state".
 
   For every format `X` with well-formedness predicate `X.WF` (explicit, decidable: lengths fit their length fields,
   integers fit their wire width, tensor payload length = size · sizeof, the object carries the library version, a weak
   learner's id names the class of its body):
     `X_roundtrip`       : X.WF x → dec (enc x ++ rest) = some (x, rest)
     `X_prefix_rejected` : X.WF x → p <+: enc x → p ≠ enc x → dec p = none      (every strict prefix of every valid stream)
-  The payload-corruption clause of the property is proved in part, see `tensor_payload_corruption_partial`.
+  The payload-corruption clause of the property is FALSE for the code as it is (kernel-checked witness
+  `tensor_single_bit_flip_accepted`, replayed on the implementation by corpus/C15); what holds is
+  `tensor_element_corruption_detected` and `tensor_payload_corruption_partial`.
+
+  COVERAGE — every `read` / `write` of the anchored files (grep `read(std::istream` / `write(std::ostream` in include/ src/):
+
+  | C++ (file:lines)                                              | status     | Lean                                                    |
+  |---------------------------------------------------------------|------------|---------------------------------------------------------|
+  | core/stream.h:13-20   write(scalar)                           | modelled   | `(uintLE k).enc`, `(intLE k).enc`, `raw k`              |
+  | core/stream.h:22-30   write(data, count)                      | modelled   | `(raw n).enc`                                           |
+  | core/stream.h:32-41   write_cast<T>(data, count)              | modelled   | `(rep i32 rank).enc` (tensor dims), `i64.enc`, `u32.enc`|
+  | core/stream.h:43-47   write(string_view)                      | modelled   | `str.enc`                                               |
+  | core/stream.h:52-56   write(object with .write)               | modelled   | the object's codec                                      |
+  | core/stream.h:61-69   write(unique_ptr<T>)                    | modelled   | `(factory ids body).enc`, `wlearner.enc`                |
+  | core/stream.h:74-88   write(vector<T>)                        | modelled   | `(vec c).enc`                                           |
+  | core/stream.h:90-97   read(scalar)                            | modelled   | `(uintLE k).dec` / `Stream.rdUInt`, `Stream.rdInt`      |
+  | core/stream.h:99-107  read(data, count)                       | modelled   | `(raw n).dec` / `Stream.rdRaw` (negative count: fails)  |
+  | core/stream.h:109-128 read_cast<T>(scalar | data, count)      | modelled   | `intLE`, `rep i32 rank` / `Stream.rdDims` (loop, no exit)|
+  | core/stream.h:130-144 read(string): resize + char loop        | modelled   | `str.dec` / `Stream.rdString`, `Stream.rdChars`         |
+  | core/stream.h:149-153 read(object with .read)                 | modelled   | the object's codec                                      |
+  | core/stream.h:158-175 read(unique_ptr<T>): look-up after fail | modelled   | `(factory ids body).dec` / `Stream.rdFactory`           |
+  | core/stream.h:180-198 read(vector<T>): loop with early return | modelled   | `(vec c).dec` / `Stream.rdVec`, `Stream.rdElems`        |
+  | tensor/stream.h:12-25 write(tensor)                           | modelled   | `(tensor k rank).enc` (10 scalar types, any rank)       |
+  | tensor/stream.h:30-58 read(tensor)                            | modelled   | `(tensor k rank).dec` / `Stream.rdTensor`               |
+  | core/hash.h:8-11      hash_version                            | translated | `Gen.CodecConsts.hashVersion`                           |
+  | core/hash.h:13-16     hash_combine                            | translated | `Gen.CodecConsts.hashCombine`                           |
+  | core/hash.h:18-50     hash<tscalar>(data, size)               | modelled   | `hashPayload`, `elemHash` (sign extension per type)     |
+  | parameter.cpp:93-101  make_comp / make_flag                   | modelled   | `flag`                                                  |
+  | parameter.cpp:103-146 read(range_t), read(pair_range_t)       | modelled   | `rangeOf`, `prangeOf`                                   |
+  | parameter.cpp:148-175 write(range_t), write(pair_range_t)     | modelled   | `rangeOf`, `prangeOf`                                   |
+  | parameter.cpp:339-410 parameter_t::read / write               | modelled   | `parameter`, `storage` (7 alternatives, unknown tag)    |
+  | parameter.cpp (rest: constructors, setters, domain checks)    | outside    | not serialization (the reader does not re-check domains)|
+  | configurable.cpp:58-84 configurable_t::read / write           | modelled   | `configurable`, `version`, `versionOk` / `Stream.rdConfigurable` |
+  | cmake/version.h.in    major/minor/patch_version               | translated | `Gen.CodecConsts.{major,minor,patch}Version`            |
+  | feature.cpp:114-133   feature_t::read / write                 | modelled   | `feature`, `featureTypeOf` (= `from_string<feature_type>`)|
+  | learner.cpp:30-48     learner_t::read / write                 | modelled   | `learner` / `Stream.rdLearner`                          |
+  | linear.cpp:58-76      linear_t::read / write (+ size check)   | modelled   | `linear`, `linearOk` / `Stream.rdLinear`; tagged: `factory ids linear` |
+  | wlearner/single.cpp:19-37                                     | modelled   | `single`                                                |
+  | wlearner/stump.cpp:102-118, hinge.cpp:158-176                 | modelled   | `wbodyOf 1`, `wbodyOf 2`                                |
+  | wlearner/table.cpp:238-256 (dense/kbest/ksplit/dstep)         | modelled   | `wbodyOf 3` (hashes `tensor .u64 1`, indices `tensor .i64 1`)|
+  | wlearner/dtree.cpp:68-87 read/write(dtree_node_t)             | modelled   | `dnode`                                                 |
+  | wlearner/dtree.cpp:112-130                                    | modelled   | `wbodyOf 4`                                             |
+  | wlearner/affine.cpp   (no own read/write)                     | modelled   | `wbodyOf 0` = `single`                                  |
+  | gboost/model.cpp:265-285 gboost_model_t::read / write         | modelled   | `gboost` / `Stream.rdGBoost`                            |
+  | solver_t (35 ids), lsearch0_t, lsearchk_t, loss_t, splitter_t,| modelled   | `factory ids configurable` (no override of              |
+  |   tuner_t, datasource_t, program::solver_t                    |            |   configurable_t::read/write); ids from the run         |
+  | factory look-up `T::all().get(id)` (factory.h)                | oracle     | the id list on the op line (what `all().ids()` returns);|
+  |                                                               |            |   contract: `get(id) != null ⇔ id ∈ ids` — monitored    |
+  |                                                               |            |   per run by the `factory … expect=` ops (C14 owns it)  |
+  | generator_t, function_t, dataset_t, cluster_t, ml::params_t / | outside    | have no read/write (nothing to serialise)               |
+  |   result_t, early-stopping state, mhash                       |            |                                                         |
+  | fit / predict of the models                                   | outside    | observed: predictions of the re-read model bit-identical|
 -/
 namespace NanoVerif.Codec
 open NanoVerif.Gen.CodecConsts
@@ -264,6 +318,203 @@ theorem gboost_roundtrip (g : GBoost) (rest : Bytes) (h : g.WF) :
 theorem gboost_prefix_rejected (x : GBoost) (p : Bytes) (h : x.WF) (hp : p <+: gboost.enc x)
     (hne : p ≠ gboost.enc x) : gboost.dec p = none := gboost_good.ps x p h hp hne
 
+
+/-! ### the readers as coded (`Model/WireStream.lean`) implement the codecs -/
+
+open Stream in
+/-- the character loop of `read(stream, std::string&)` on a good stream: all `n` bytes, or a failed stream -/
+theorem string_loop_reads_n_or_fails (n : Nat) (bs : Bytes) :
+    match takeN n bs with
+    | some (x, r) => rdChars n ⟨bs, true⟩ = .val x ⟨r, true⟩
+    | none => ∃ x, rdChars n ⟨bs, true⟩ = .val x ⟨[], false⟩ := rdChars_spec n bs
+
+theorem string_reader_as_coded : Stream.Impl Stream.rdString str := Stream.impl_string
+
+theorem vector_reader_as_coded {α : Type} {R : Stream.Reader α} {c : Codec α} (h : Stream.Impl R c) :
+    Stream.Impl (Stream.rdVec R) (vec c) := Stream.impl_vec h
+
+/-- the look-up of a garbage id after a failed id read cannot turn a failure into a success -/
+theorem factory_reader_as_coded {β : Type} [Inhabited β] {B : Stream.Reader β} {body : Codec β} (ids : List Bytes)
+    (h : Stream.Impl B body) : Stream.Impl (Stream.rdFactory ids B) (factory ids body) := Stream.impl_factory ids h
+
+theorem tensor_reader_as_coded (k : Scalar) (rank : Nat) : Stream.Impl (Stream.rdTensor k rank) (tensor k rank) :=
+  Stream.impl_tensor k rank
+
+theorem configurable_reader_as_coded {P : Stream.Reader Parameter} (hP : Stream.Impl P parameter) :
+    Stream.Impl (Stream.rdConfigurable P) configurable := Stream.impl_configurable hP
+
+/-- statement sequences and `||` chains of readers implement `dseq` (every model reader is such a sequence) -/
+theorem sequence_reader_as_coded {α β : Type} {A : Stream.Reader α} {a : Codec α} {B : α → Stream.Reader β}
+    {b : α → Codec β} (ha : Stream.Impl A a) (hb : ∀ x, Stream.Impl (B x) (b x)) :
+    Stream.Impl (Stream.bind A (fun x => Stream.bind (B x) (fun y => Stream.ret (x, y)))) (dseq a b) :=
+  Stream.impl_dseq ha hb
+
+/-- a procedure that implements a codec ends with a good stream exactly on the byte strings the codec decodes -/
+theorem reader_accepts_iff_codec {α : Type} {R : Stream.Reader α} {c : Codec α} (h : Stream.Impl R c) (bs : Bytes) :
+    (R ⟨bs, true⟩).failed = false ↔ (c.dec bs).isSome = true := h.accepts_iff bs
+
+/-- the property for the tensor reader as coded: what was written is read back … -/
+theorem tensor_reader_roundtrip (k : Scalar) (rank : Nat) (hr : rank < 4294967296) (t : Tensor) (rest : Bytes)
+    (h : Tensor.WF k rank t) :
+    Stream.rdTensor k rank ⟨(tensor k rank).enc t ++ rest, true⟩ = .val t ⟨rest, true⟩ :=
+  (Stream.impl_tensor k rank).some (tensor_roundtrip k rank hr t rest h)
+
+/-- … and every strict prefix ends with a failed stream -/
+theorem tensor_reader_prefix_rejected (k : Scalar) (rank : Nat) (hr : rank < 4294967296) (t : Tensor) (p : Bytes)
+    (h : Tensor.WF k rank t) (hp : p <+: (tensor k rank).enc t) (hne : p ≠ (tensor k rank).enc t) :
+    (Stream.rdTensor k rank ⟨p, true⟩).failed = true :=
+  (Stream.impl_tensor k rank).none (tensor_prefix_rejected k rank hr t p h hp hne)
+
+/-- the same for a configured factory object (solver, loss, …) read by the procedures as coded -/
+theorem factory_configurable_reader_prefix_rejected {P : Stream.Reader Parameter} (hP : Stream.Impl P parameter)
+    (ids : List Bytes) (id : Bytes) (c : Configurable) (p : Bytes) (hid : StrOk id) (hmem : id ∈ ids) (h : c.WF)
+    (hp : p <+: (factory ids configurable).enc (id, c)) (hne : p ≠ (factory ids configurable).enc (id, c)) :
+    (Stream.rdFactory ids (Stream.rdConfigurable P) ⟨p, true⟩).failed = true :=
+  (Stream.impl_factory ids (Stream.impl_configurable hP)).none
+    (factory_configurable_prefix_rejected ids id c p hid hmem h hp hne)
+
+/-- the model readers are sequences of `critical(!read(a) || !read(b) …)` over the procedures above: learner, linear
+    model (with its size check), gradient boosting model; `P`, `F`, `W` read one parameter / feature / weak learner -/
+theorem learner_reader_as_coded {P : Stream.Reader Parameter} {F : Stream.Reader Feature}
+    (hP : Stream.Impl P parameter) (hF : Stream.Impl F feature) : Stream.Impl (Stream.rdLearner P F) learner :=
+  Stream.impl_learner hP hF
+
+theorem linear_reader_as_coded {P : Stream.Reader Parameter} {F : Stream.Reader Feature}
+    (hP : Stream.Impl P parameter) (hF : Stream.Impl F feature) : Stream.Impl (Stream.rdLinear P F) linear :=
+  Stream.impl_linear hP hF
+
+theorem gboost_reader_as_coded {P : Stream.Reader Parameter} {F : Stream.Reader Feature} {W : Stream.Reader WLearner}
+    (hP : Stream.Impl P parameter) (hF : Stream.Impl F feature) (hW : Stream.Impl W wlearner) :
+    Stream.Impl (Stream.rdGBoost P F W) gboost := Stream.impl_gboost hP hF hW
+
+/-- every strict prefix of the stream of a gradient boosting model makes the reader as coded throw or fail -/
+theorem gboost_reader_prefix_rejected {P : Stream.Reader Parameter} {F : Stream.Reader Feature}
+    {W : Stream.Reader WLearner} (hP : Stream.Impl P parameter) (hF : Stream.Impl F feature)
+    (hW : Stream.Impl W wlearner) (x : GBoost) (p : Bytes) (h : x.WF) (hp : p <+: gboost.enc x)
+    (hne : p ≠ gboost.enc x) : (Stream.rdGBoost P F W ⟨p, true⟩).failed = true :=
+  (Stream.impl_gboost hP hF hW).none (gboost_prefix_rejected x p h hp hne)
+
+/-! ### version compatibility (configurable.cpp:64-68): all three components -/
+
+/-- lexicographic `≤` on version triples -/
+def verLE (v w : Version) : Prop :=
+  v.1 < w.1 ∨ (v.1 = w.1 ∧ (v.2.1 < w.2.1 ∨ (v.2.1 = w.2.1 ∧ v.2.2 ≤ w.2.2)))
+
+instance (v w : Version) : Decidable (verLE v w) := by unfold verLE; infer_instance
+
+/-- the three-clause condition of the code is exactly "not newer than the library" in the lexicographic order -/
+theorem versionOk_iff_lex (v : Version) : versionOk v = true ↔ verLE v libVersion := by
+  unfold versionOk verLE libVersion
+  simp only [Bool.not_eq_true', Bool.or_eq_false_iff, Bool.and_eq_false_imp, Bool.and_eq_true, decide_eq_true_eq,
+    decide_eq_false_iff_not]
+  omega
+
+theorem version_newer_major_rejected (v : Version) (h : v.1 > majorVersion) : versionOk v = false := by
+  have := versionOk_iff_lex v
+  unfold verLE libVersion at this
+  cases hv : versionOk v with
+  | false => rfl
+  | true => have := this.mp hv; simp only at this; omega
+
+theorem version_newer_minor_rejected (v : Version) (h1 : v.1 = majorVersion) (h2 : v.2.1 > minorVersion) :
+    versionOk v = false := by
+  have := versionOk_iff_lex v
+  unfold verLE libVersion at this
+  cases hv : versionOk v with
+  | false => rfl
+  | true => have := this.mp hv; simp only at this; omega
+
+theorem version_newer_patch_rejected (v : Version) (h1 : v.1 = majorVersion) (h2 : v.2.1 = minorVersion)
+    (h3 : v.2.2 > patchVersion) : versionOk v = false := by
+  have := versionOk_iff_lex v
+  unfold verLE libVersion at this
+  cases hv : versionOk v with
+  | false => rfl
+  | true => have := this.mp hv; simp only at this; omega
+
+/-- an older major version is readable whatever its minor and patch numbers are -/
+theorem version_older_major_accepted (v : Version) (h : v.1 < majorVersion) : versionOk v = true :=
+  (versionOk_iff_lex v).mpr (Or.inl h)
+
+theorem version_older_minor_accepted (v : Version) (h1 : v.1 = majorVersion) (h2 : v.2.1 < minorVersion) :
+    versionOk v = true := (versionOk_iff_lex v).mpr (Or.inr ⟨h1, Or.inl h2⟩)
+
+theorem version_not_newer_patch_accepted (v : Version) (h1 : v.1 = majorVersion) (h2 : v.2.1 = minorVersion)
+    (h3 : v.2.2 ≤ patchVersion) : versionOk v = true := (versionOk_iff_lex v).mpr (Or.inr ⟨h1, Or.inr ⟨h2, h3⟩⟩)
+
+/-- the reader's decision on ANY version triple followed by a valid parameter list -/
+theorem configurable_version_exact (v : Version) (ps : List Parameter) (rest : Bytes)
+    (h1 : I32 v.1) (h2 : I32 v.2.1) (h3 : I32 v.2.2) (hps : ps.length < 18446744073709551616 ∧ ∀ p ∈ ps, p.WF) :
+    configurable.dec ((seq i32 (seq i32 i32)).enc v ++ ((vec parameter).enc ps ++ rest)) =
+      if verLE v libVersion then some (⟨v, ps⟩, rest) else none := by
+  by_cases hv : verLE v libVersion
+  · rw [if_pos hv]
+    exact configurable_older_version_accepted v ps rest h1 h2 h3 ((versionOk_iff_lex v).mpr hv) hps
+  · rw [if_neg hv]
+    have : versionOk v = false := by
+      cases h : versionOk v with
+      | false => rfl
+      | true => exact absurd ((versionOk_iff_lex v).mp h) hv
+    exact configurable_newer_version_rejected v _ h1 h2 h3 this
+
+/-! ### what the content hash detects beyond the last element -/
+
+/-- `hash_combine(·, h)` is NOT injective: the running hash can forget a difference -/
+theorem hashCombine_not_injective_left : ∃ s1 s2 h : UInt64, s1 ≠ s2 ∧ hashCombine s1 h = hashCombine s2 h :=
+  ⟨_, _, _, hashCombine_collision⟩
+
+/-- one fold moves the lowest differing bit of two running hashes down by exactly two positions -/
+theorem hashCombine_keeps_low_difference (p : Nat) (s1 s2 h : UInt64) (hd : LowDiff (p + 2) s1 s2) :
+    LowDiff p (hashCombine s1 h) (hashCombine s2 h) := hashCombine_lowDiff_left p s1 s2 h hd
+
+/-- the fold detects the replacement of an element when the lowest changed bit is at least `2 ·` (elements after it) -/
+theorem hash_fold_detects (pre post : List UInt64) (a b : UInt64) (p : Nat) (h : LowDiff p a b)
+    (hp : 2 * post.length ≤ p) : hashList (pre ++ a :: post) ≠ hashList (pre ++ b :: post) :=
+  hashList_lowDiff pre post a b p h hp
+
+/-- ANY element of the payload (`i` elements before it, `m` after it): a replacement whose lowest changed bit `p`
+    (of the 64-bit value the hash sees) satisfies `2 m ≤ p` is refused. `m = 0` is
+    `tensor_last_element_corruption_detected`. -/
+theorem tensor_element_corruption_detected (k : Scalar) (rank : Nat) (hr : rank < 4294967296) (ds : List Int)
+    (i m p : Nat) (pre a b post rest : Bytes) (hl : ds.length = rank) (hd : ∀ d ∈ ds, I32 d)
+    (hn : dimsSize ds = ((i + (1 + m) : Nat) : Int)) (hpre : pre.length = i * k.size) (ha : a.length = k.size)
+    (hb : b.length = k.size) (hpost : post.length = m * k.size)
+    (hdiff : LowDiff p (elemHash k a) (elemHash k b)) (hp : 2 * m ≤ p) :
+    (tensor k rank).dec (tensorStreamWith k rank ds (pre ++ (a ++ post)) (pre ++ (b ++ post)) ++ rest) = none :=
+  tensor_element_replaced k rank hr ds i m p pre a b post rest hl hd hn hpre ha hb hpost hdiff hp
+
+/-- single-bit flips: flipping bit `q` of the hashed value of an element that is followed by at most `q / 2` elements
+    is refused -/
+theorem tensor_bit_flip_detected (k : Scalar) (rank : Nat) (hr : rank < 4294967296) (ds : List Int)
+    (i m q : Nat) (pre a b post rest : Bytes) (hl : ds.length = rank) (hd : ∀ d ∈ ds, I32 d)
+    (hn : dimsSize ds = ((i + (1 + m) : Nat) : Int)) (hpre : pre.length = i * k.size) (ha : a.length = k.size)
+    (hb : b.length = k.size) (hpost : post.length = m * k.size) (hq : q < 64)
+    (hflip : elemHash k b = elemHash k a ^^^ UInt64.ofNat (2 ^ q)) (hp : 2 * m ≤ q) :
+    (tensor k rank).dec (tensorStreamWith k rank ds (pre ++ (a ++ post)) (pre ++ (b ++ post)) ++ rest) = none :=
+  tensor_element_replaced k rank hr ds i m q pre a b post rest hl hd hn hpre ha hb hpost
+    (hflip ▸ lowDiff_flip (elemHash k a) q hq) hp
+
+/-- two doubles (2^-187 · 1.67…, 0.0359…) -/
+def exFlip : Tensor :=
+  ⟨[2], [0x87, 0xca, 0x5f, 0xa4, 0x7b, 0xbc, 0x3a, 0x34, 0x97, 0x46, 0x74, 0xa2, 0x53, 0x64, 0xa2, 0x3f]⟩
+
+/-- WITNESS (replayed on the implementation, corpus/C15): flipping ONE BIT (bit 0 of the first payload byte, 0x87 → 0x86)
+    of a valid stream of a two-element `double` tensor gives a stream that is read successfully, with the altered
+    content. The payload clause of the property does not hold for the code as it is; the bit is below the `2 m ≤ p`
+    bound of `tensor_element_corruption_detected` (`p = 0`, `m = 1`). -/
+theorem tensor_single_bit_flip_accepted :
+    Tensor.WF .f64 1 exFlip ∧ ((tensor .f64 1).enc exFlip).getD 24 0 = 0x87 ∧
+      (tensor .f64 1).dec (((tensor .f64 1).enc exFlip).set 24 0x86) = some (⟨[2], exFlip.payload.set 0 0x86⟩, []) := by
+  decide
+
+/-- the hypothesis "the 64-bit folds differ" of `tensor_payload_corruption_partial` cannot be dropped -/
+theorem tensor_payload_corruption_hash_hypothesis_necessary :
+    ∃ (k : Scalar) (rank : Nat) (ds : List Int) (pl pl' : Bytes), pl' ≠ pl ∧ ds.length = rank ∧ (∀ d ∈ ds, I32 d) ∧
+      0 ≤ dimsSize ds ∧ pl'.length = (dimsSize ds).toNat * k.size ∧
+      ((tensor k rank).dec (tensorStreamWith k rank ds pl pl')).isSome = true :=
+  ⟨.f64, 1, [2], exFlip.payload, exFlip.payload.set 0 0x86, by decide, by decide, by decide, by decide, by decide,
+    by decide⟩
+
 /-! ### non-vacuity: the hypotheses are satisfiable, the statements bite on concrete streams -/
 
 /-- a 2x1 `int16` tensor -/
@@ -298,5 +549,38 @@ example : exStump.WF := by decide
 def exGBoost : GBoost := ⟨exLearner, ⟨[1], List.replicate 8 0⟩, [exStump], [exStump]⟩
 example : exGBoost.WF := by decide
 example : (wlearner.dec (str.enc [0x78] ++ [])) = none := by decide
+
+-- the readers as coded: a hypothesis `Impl P parameter` is satisfiable (the codec itself, run on a good stream)
+def exParamReader : Stream.Reader Parameter := fun s =>
+  if s.ok then
+    match parameter.dec s.buf with
+    | some (v, r) => .val v ⟨r, true⟩
+    | none => .throw
+  else .throw
+example : Stream.Impl exParamReader parameter := by
+  refine ⟨fun bs => ?_, fun s hs => ?_⟩
+  · cases h : parameter.dec bs with
+    | none => simp [exParamReader, h, Stream.Res.failed]
+    | some p => obtain ⟨v, r⟩ := p; simp [exParamReader, h]
+  · simp [exParamReader, hs, Stream.Res.failed]
+-- the string loop on a 3-byte stream asked for 2 / 5 characters; the NUL padding of the short read
+example : Stream.rdChars 2 ⟨[1, 2, 3], true⟩ = .val [1, 2] ⟨[3], true⟩ := by decide
+example : Stream.rdChars 5 ⟨[1, 2, 3], true⟩ = .val [1, 2, 3, 0, 0] ⟨[], false⟩ := by decide
+example : (Stream.rdString ⟨[2, 0, 0, 0, 0x61], true⟩).failed = true := by decide
+example : Stream.rdTensor .i16 2 ⟨(tensor .i16 2).enc exTensor ++ [7], true⟩ = .val exTensor ⟨[7], true⟩ := by decide
+example : (Stream.rdTensor .i16 2 ⟨((tensor .i16 2).enc exTensor).take 31, true⟩).failed = true := by decide
+-- versions around the library's 0.0.1 (all three components matter, in lexicographic order)
+example : verLE (0, 0, 1) libVersion ∧ verLE (0, -1, 99) libVersion ∧ verLE (-1, 99, 99) libVersion ∧
+    ¬ verLE (0, 0, 2) libVersion ∧ ¬ verLE (0, 1, -99) libVersion ∧ ¬ verLE (1, -99, -99) libVersion := by decide
+example : I32 (0 : Int) ∧ ((([] : List Parameter).length < 18446744073709551616) ∧ ∀ p ∈ ([] : List Parameter), p.WF) := by
+  decide
+-- the low-bit rule: bit 2 of the first of two elements is guarded (2·1 ≤ 2), bit 0 is not (the witness above)
+example : LowDiff 2 (5 : UInt64) (1 : UInt64) ∧ LowDiff 0 (0x343abc7ba45fca87 : UInt64) 0x343abc7ba45fca86 := by decide
+example : LowDiff 63 (0 : UInt64) (UInt64.ofNat (2 ^ 63)) := by decide
+-- bytes to hashed value: flipping bit 2 of byte 0 / bit 7 of byte 7 of a double flips bit 2 / bit 63 of what the hash sees
+example : elemHash .f64 [0x83, 0xca, 0x5f, 0xa4, 0x7b, 0xbc, 0x3a, 0x34] =
+    elemHash .f64 [0x87, 0xca, 0x5f, 0xa4, 0x7b, 0xbc, 0x3a, 0x34] ^^^ UInt64.ofNat (2 ^ 2) := by decide
+example : elemHash .f64 [0x87, 0xca, 0x5f, 0xa4, 0x7b, 0xbc, 0x3a, 0xb4] =
+    elemHash .f64 [0x87, 0xca, 0x5f, 0xa4, 0x7b, 0xbc, 0x3a, 0x34] ^^^ UInt64.ofNat (2 ^ 63) := by decide
 
 end NanoVerif.Codec
